@@ -6,8 +6,13 @@ from .values import V
 
 
 class LoopSpec:
-    def __init__(self, inv=None, havoc=(), comp=None, allow_val_writes=False, summary=None, fresh_only=False):
+    def __init__(self, inv=None, havoc=(), comp=None, allow_val_writes=False, summary=None, fresh_only=False, alloc_elem=None):
         self.inv, self.havoc, self.comp, self.allow_val_writes = inv, tuple(havoc), comp, allow_val_writes
+        # dict comprehension {k: f(v) for k, v in d.items()} whose element expression allocates (calls a contracted callee
+        # with a fresh-only frame): alloc_elem(eng, key, value, ap_before, ap_after) -> [(label, Bool)] are facts about one
+        # produced value that do not read the heap (class, allocation bounds, heap-implicit predicates the callee preserves);
+        # proved for an arbitrary element in an arbitrary intermediate state, then assumed for every element of the result
+        self.alloc_elem = alloc_elem
         self.fresh_only = fresh_only   # the body writes the havocked fields only on objects allocated by this function
         self.summary = summary      # comprehensions: (LoopCtx, j) -> list of V terms the element must equal
 
